@@ -32,7 +32,12 @@ def _rejections(tier, seed):
                 if not (o["outcome"] == "error" and o["exc"] in exp):
                     new.append((dict(program=p, seed=p.get("seed"), profile="reject"),
                                 dict(kind="wrong_rejection", stmt=oid, op=str(rule), exc=o.get("exc"), expected=exp, outcome=o["outcome"], backend=be, msg=o.get("msg"))))
-                if u["outcome"] != "ok":
+                if u["outcome"] != "ok" and u.get("exc") == "InvalidOperationError" and "doesn't match the DataFrame height" in (u.get("msg") or "") \
+                        and any(f["id"] == "D51" for f in findings):
+                    # the history contains an expression the Polars engine folds to a scalar (engine finding D51):
+                    # the input table was unusable before the rejected verb as well
+                    known_hits.setdefault("D51", []).append(dict(kind="input_unusable_after_rejection", stmt="still_usable", exc=u.get("exc")))
+                elif u["outcome"] != "ok":
                     new.append((dict(program=p, seed=p.get("seed"), profile="reject"),
                                 dict(kind="input_unusable_after_rejection", stmt="still_usable", op=str(rule), exc=u.get("exc"), backend=be)))
         if po["build"]["ok"]:
